@@ -12,12 +12,15 @@ from common import Report, say
 from hsim import batch, core, faultsim as FS
 
 PER_KIND = {"quick": 3, "thorough": 110}
+COMBO_N = {"quick": 15, "thorough": 150}
 OUT_ERR_ENUM = {"quick": 10, "thorough": None}  # None = every k
 
 
 def _case(seed, i):
     kind = FS.KINDS[i % len(FS.KINDS)]
     s = core.run_seed(seed, "c12-fault", i)
+    if kind == "opt_combo":
+        return FS.combo_case(core.stream(s, "case"), s, i // len(FS.KINDS) + seed)
     case = FS.make_case(core.stream(s, "case"), s, kind=kind)
     if kind == "opt_inconsistent":
         # stratified over the list, so that every size of difference gets its turn
@@ -81,6 +84,10 @@ def phase_shipped(rep):
 def phase_faults(rep, tier, seed):
     n = PER_KIND[tier] * len(FS.KINDS)
     cases = [_case(seed, i) for i in range(n)]
+    # documented options in combination, no fault: every pair of fragments gets its turn
+    for j in range(COMBO_N[tier]):
+        s_ = core.run_seed(seed, "c12-combo", j)
+        cases.append(FS.combo_case(core.stream(s_, "case"), s_, j + seed))
     # OUT-ERR enumeration: the k-th DataFile call fails, k = 1..K, on two configurations
     enum_cases = []
     for entry, geom in (("circular", None), ("geqdsk", "lsn")):
@@ -118,7 +125,8 @@ def phase_faults(rep, tier, seed):
             for k, v in (cn.get(src) or {}).items():
                 if isinstance(v, (int, float)) and v:
                     fired[f"{src}.{k}"] += v
-        if kind in ("git", "opt_unknown", "opt_invalid", "opt_inconsistent", "envelope"):
+        if kind in ("git", "opt_unknown", "opt_invalid", "opt_inconsistent", "envelope",
+                    "opt_combo"):
             fired[kind] += 1
         if cn.get("runaway"):
             fired["runaway"] += 1
@@ -159,11 +167,12 @@ def main(tier, seed):
         "evaluations": max(1, info["runs"] + len(shipped)),
         "distinct_nontrivial": info["distinct"] + len(shipped),
         "rule": "one evaluation = one whole generation run through a public entry point "
-                "under one fault plan (13 kinds: none, input truncation / EIO / missing "
+                "under one fault plan (15 kinds: none, input truncation / EIO / missing "
                 "file, output write error at the k-th DataFile call, refine-chain "
                 "failures, simulated timeout, failure inside a simulated worker, git "
                 "subprocess faults, unknown / invalid / inconsistent options, settings "
-                "outside the envelope) or one shipped configuration fault-free. Distinct "
+                "outside the envelope, a damaged geqdsk field, documented options in "
+                "combination) or one shipped configuration fault-free. Distinct "
                 "non-trivial = distinct (kind, entry point, topology, outcome, exception "
                 "type, fault parameters).",
         "samples": samples or [{"shipped": shipped}],
